@@ -425,6 +425,113 @@ fn t_policy(data: &[u8], ctx: &mut Ctx) -> CheckResult {
     Ok(())
 }
 
+/// Hand-written modules around earlier findings and limits (independent of the generator, so they
+/// stay pinned when the generator changes). Each entry: name, module, expected verdict under V1.
+fn regress_modules() -> Vec<(&'static str, Module, bool)> {
+    use Op::*;
+    let base = |body: Vec<Op>, result: Option<ValType>| {
+        let mut m = Module::default();
+        m.types.push(FuncType { params: vec![ValType::I32], result });
+        m.funcs.push(Func { ty: 0, locals: vec![], body });
+        m.exports.push(Export { name: "f".into(), kind: ExportKind::Func(0) });
+        m
+    };
+    let mut v = vec![
+        ("plain", base(vec![LocalGet(0), End], Some(ValType::I32)), true),
+        ("f7-nop-after-end", base(vec![LocalGet(0), End, Nop], Some(ValType::I32)), false),
+        ("f7-const-after-end", base(vec![End, I32Const(1)], None), false),
+        ("f7-return-after-end", base(vec![LocalGet(0), Br(0), End, Return], Some(ValType::I32)), false),
+        ("f7-global-get-after-end", {
+            let mut m = base(vec![End, GlobalGet(0)], None);
+            m.globals.push(Global { ty: ValType::I32, mutable: false, init: ConstExpr::I32(0) });
+            m
+        }, false),
+        ("f7-call-after-end", {
+            let mut m = base(vec![End, Call(1)], None);
+            m.types.push(FuncType { params: vec![], result: None });
+            m.funcs.push(Func { ty: 1, locals: vec![], body: vec![End] });
+            m
+        }, false),
+        ("missing-end", base(vec![LocalGet(0)], Some(ValType::I32)), false),
+        ("if-result-without-else", base(vec![LocalGet(0), If(BlockType::Val(ValType::I32)), I32Const(1), End, End], Some(ValType::I32)), false),
+        ("locals-1024", {
+            let mut m = base(vec![End], None);
+            m.funcs[0].locals.push((1023, ValType::I64));
+            m
+        }, true),
+        ("locals-1025", {
+            let mut m = base(vec![End], None);
+            m.funcs[0].locals.push((1024, ValType::I64));
+            m
+        }, false),
+        ("memory-32-pages", { let mut m = base(vec![End], None); m.memory = Some(Limits { min: 32, max: None }); m }, true),
+        ("memory-33-pages", { let mut m = base(vec![End], None); m.memory = Some(Limits { min: 33, max: None }); m }, false),
+        ("table-1000", { let mut m = base(vec![End], None); m.table = Some(Limits { min: 1000, max: None }); m }, true),
+        ("table-1001", { let mut m = base(vec![End], None); m.table = Some(Limits { min: 1001, max: None }); m }, false),
+        ("start-section", { let mut m = base(vec![End], None); m.start = Some(0); m }, false),
+        ("elem-negative-offset", {
+            let mut m = base(vec![End], None);
+            m.table = Some(Limits { min: 2, max: None });
+            m.elems.push(Elem { offset: ConstExpr::I32(-1), funcs: vec![0] });
+            m
+        }, false),
+        ("data-at-end-of-memory", {
+            let mut m = base(vec![End], None);
+            m.memory = Some(Limits { min: 1, max: Some(1) });
+            m.datas.push(Data { offset: ConstExpr::I32(65532), bytes: vec![1, 2, 3, 4] });
+            m
+        }, true),
+        ("data-one-past-end", {
+            let mut m = base(vec![End], None);
+            m.memory = Some(Limits { min: 1, max: Some(1) });
+            m.datas.push(Data { offset: ConstExpr::I32(65533), bytes: vec![1, 2, 3, 4] });
+            m
+        }, false),
+    ];
+    // stack height boundary: locals (1 param) + k pushes <= 1024
+    for (k, ok) in [(1023usize, true), (1024, false)] {
+        let mut body = Vec::new();
+        for _ in 0..k {
+            body.push(I32Const(0));
+        }
+        for _ in 0..k {
+            body.push(Drop);
+        }
+        body.push(End);
+        v.push((if ok { "stack-1023-plus-1-local" } else { "stack-1024-plus-1-local" }, base(body, None), ok));
+    }
+    v
+}
+
+fn t_regress(data: &[u8], ctx: &mut Ctx) -> CheckResult {
+    let mut u = Unstructured::new(data);
+    let ms = regress_modules();
+    let i = g::idx(&mut u, ms.len());
+    let (name, m, expect) = &ms[i];
+    ctx.class(name);
+    ctx.describe(|| format!("{name}\n{}", pretty(m)));
+    let bytes = wasmgen::encode::encode(m);
+    let reference = validate(m, Config::V1).is_ok();
+    vensure!(reference == *expect, "harness", "reference validator verdict for {name} is {reference}, expected {expect}");
+    for v in [VCfg::V0, VCfg::V1] {
+        for mt in [Metering::None, Metering::V1] {
+            let got = instantiate(&bytes, v, mt).is_ok();
+            vensure!(
+                got == *expect,
+                if *expect { "rejects-valid" } else { "accepts-invalid" },
+                "module {name} under {:?}/{:?}: engine verdict accepted={got}, expected accepted={expect}",
+                v,
+                mt
+            );
+        }
+    }
+    if *expect {
+        run_accepted(&bytes, VCfg::V1, m, &mut u, ctx)?;
+    }
+    ctx.nontrivial(&i);
+    Ok(())
+}
+
 pub fn property() -> Property {
     Property {
         id: "C09",
@@ -442,6 +549,7 @@ pub fn property() -> Property {
             ]),
             Target::new("bytes", t_bytes).len(32, 768).cases(80_000, 5_000_000).floors(&[("accepted", 0.03), ("rejected", 0.3)]),
             Target::new("policy", t_policy).len(8, 32).cases(40_000, 400_000),
+            Target::new("regress", t_regress).len(2, 16).cases(2_000, 20_000),
         ],
     }
 }
